@@ -15,6 +15,9 @@ use std::collections::BTreeMap;
 pub enum TOp {
     TInt(u32, u32),
     TFloat(u32),
+    /// OpTypeFloat with its optional FP-encoding operand present (0x7fffffff, the only value the implementation's
+    /// FPEncoding type has): the width is what counts
+    TFloatEnc(u32),
     TBool,
     /// OpConstant with result type = k-th defined id, n literal words
     Const(usize, usize),
@@ -41,6 +44,8 @@ pub fn alphabet() -> Vec<TOp> {
         a.push(TOp::TFloat(w));
     }
     a.push(TOp::TBool);
+    a.push(TOp::TFloatEnc(64));
+    a.push(TOp::TFloatEnc(8));
     for k in 0..4 {
         for n in [1, 2] {
             a.push(TOp::Const(k, n));
@@ -159,6 +164,14 @@ fn build_s(h: &[TOp], scheme: usize) -> Built {
                 next += 1;
                 w.extend([op("TypeFloat"), id, width]);
                 exp = Exp::Accept(vec![dr::Operand::LiteralBit32(width)]);
+                map.insert(id, Ty::Float(width));
+                defined.push(id);
+            }
+            TOp::TFloatEnc(width) => {
+                let id = scheme_id(scheme, next);
+                next += 1;
+                w.extend([op("TypeFloat"), id, width, 0x7FFF_FFFF]);
+                exp = Exp::Accept(vec![dr::Operand::LiteralBit32(width), dr::Operand::FPEncoding(rspirv::spirv::FPEncoding::Max)]);
                 map.insert(id, Ty::Float(width));
                 defined.push(id);
             }
@@ -391,7 +404,7 @@ pub fn run(tier: Tier) -> Run {
     // one step deeper over a reduced alphabet (the width classes, constants / selectors of the first four ids,
     // function boundaries), under every id scheme: defects that need two earlier declarations AND a boundary
     let reduced: Vec<TOp> = vec![
-        TOp::TInt(32, 0), TOp::TInt(64, 1), TOp::TInt(128, 0), TOp::TFloat(64), TOp::TFloat(8),
+        TOp::TInt(32, 0), TOp::TInt(64, 1), TOp::TInt(128, 0), TOp::TFloat(64), TOp::TFloat(8), TOp::TFloatEnc(64),
         TOp::Const(0, 1), TOp::Const(0, 2), TOp::Const(1, 2), TOp::Const(2, 1), TOp::Const(2, 2), TOp::ConstOfNext(2),
         TOp::Undef(0), TOp::Undef(1), TOp::Undef(2), TOp::Copy(1),
         TOp::Switch(1, 1, 2), TOp::Switch(2, 1, 2), TOp::Switch(3, 1, 1), TOp::Switch(3, 1, 2),
